@@ -160,7 +160,7 @@ func build(place string, k, kv *Kind, stmt func(target string) string, nparams i
 				set += "pv_" + kv.Name + " = v; "
 				st = strings.ReplaceAll(st, "§v", "pv_"+kv.Name)
 			}
-			f.TSet = "func(" + sig + ") { " + set + "}"
+			f.TSet = "func(" + sig + ") string { " + set + "return \"\" }"
 			f.TStmt = st
 			f.TGet = "func() string { return show(" + res + `, "") }`
 			f.Src = "func(" + sig + ") string { " + set + st + "; return show(" + res + `, "") }`
@@ -694,7 +694,7 @@ func (g *Gen) multi() {
 			set := "g0_" + K + " = a; g1_" + K + " = v; x0_" + K + " = a; "
 			res := "g0_" + K + ", g1_" + K + ", x0_" + K
 			f := &Fn{Mode: "T", Op: "multi", K: k, KV: k, Place: fmt.Sprintf("toplevel-%d", i), Rhs: "V", Params: []*Kind{k, k}}
-			f.TSet = "func(a, v " + K + ") { " + set + "}"
+			f.TSet = "func(a, v " + K + ") string { " + set + "return \"\" }"
 			f.TStmt = st
 			f.TGet = "func() string { return show(" + res + ") }"
 			f.Src = "func(a, v " + K + ") string { " + set + st + "; return show(" + res + ") }"
